@@ -200,7 +200,7 @@ where
     }
 
     fn finish(&mut self, _: &sam::Header) -> io::Result<()> {
-        Ok(())
+        self.inner.flush()
     }
 }
 
